@@ -601,7 +601,7 @@ package tally
 //@   inv @stored_storages_are_derived_from_their_own_spec c.cache != nil && (forall id uint64 :: id in c.cache ==> storageWF(c.cache[id]))
 
 //@ func (*bucketCache).Get
-//@   property C20, C09
+//@   property C20, C09, C03
 //@   allocs
 //@   requires c != nil && buckets != nil && specOK(buckets)
 //@   modifies c.cache
